@@ -12,6 +12,7 @@ CONSTANTS
   Horizon = 0
   AllowFaults = FALSE
   AllowCancel = FALSE
+  AllowStall = FALSE
   AbstractTime = TRUE
   LeakSearchIdOnDone = FALSE
   AbandonKeepsTargetId = FALSE
